@@ -175,10 +175,23 @@ func fetchStructComments(rootPackage *packages.Package, name *types.Named) (out 
 	pos := name.Obj().Pos()
 	node := nodeAt(pa, pos-1) // move up by one char to get the line right before the struct
 	decl, ok := node.(*ast.GenDecl)
-	if !ok || decl.Doc == nil {
+	if !ok {
 		return nil
 	}
-	for _, line := range decl.Doc.List {
+	doc := decl.Doc
+	if decl.Lparen.IsValid() {
+		// grouped declaration type ( A struct{} ; B struct{} ) : each struct carries its own comment
+		doc = nil
+		for _, spec := range decl.Specs {
+			if typeSpec, isType := spec.(*ast.TypeSpec); isType && typeSpec.Name.Name == name.Obj().Name() {
+				doc = typeSpec.Doc
+			}
+		}
+	}
+	if doc == nil {
+		return nil
+	}
+	for _, line := range doc.List {
 		if kind, content := isSpecialComment(line.Text); kind != 0 {
 			out = append(out, SpecialComment{Kind: kind, Content: content})
 		}
